@@ -14,3 +14,11 @@ Proof.
   revert l; induction m as [|m IH]; intros l; [reflexivity|].
   destruct l as [|x l]; [destruct k; reflexivity|]. cbn. apply IH.
 Qed.
+
+Lemma skipn_skipn' {A} (x y : nat) (l : list A) : skipn x (skipn y l) = skipn (x + y) l.
+Proof.
+  revert l; induction y as [|y IH]; intros l.
+  - rewrite Nat.add_0_r. reflexivity.
+  - destruct l as [|a l]; [rewrite !skipn_nil; reflexivity|].
+    rewrite Nat.add_succ_r. cbn [skipn]. apply IH.
+Qed.
